@@ -31,7 +31,17 @@ def main():
     big_grid = outcomes.settings_grid(versions=(2, 6, 9), modes=("app",), opts=[(None, None), (False, False)])
     small_grid = outcomes.settings_grid(versions=(4, 9), modes=("app",), opts=[(None, None), (False, False)]) + outcomes.settings_grid(versions=(2,), modes=("sig",))
     sub_grid = outcomes.settings_grid(versions=(3, 4, 7, 8, 10), modes=("app",), opts=[(None, None), (True, False)]) + outcomes.settings_grid(versions=(6,), modes=("sig",))
-    entries, raw = outcomes.collect(progs, lambda p: big_grid if p.get("big") else (sub_grid if p.get("smallgrid") == 2 else small_grid if p.get("smallgrid") else grid))
+    # constant assembly (needs version 3): the constant multisets of C12 (templates, every spelling, > 255 distinct) and two settings of the main grid
+    import c12
+    cprogs = [p for p in c12.programs(tier, rnd) if not p["big"].startswith("random")]
+    if tier == "quick":
+        cprogs = cprogs[::2]
+    for p in cprogs:
+        p["constgrid"] = 1
+    progs += cprogs
+    const_grid = [{"v": v, "mode": "app", "ac": ac} for v in (2, 3, 6, 10) for ac in (False, True)]
+    grid = grid + [{"v": 2, "mode": "app", "ac": True}, {"v": 5, "mode": "app", "ac": True}, {"v": 10, "mode": "sig", "ac": True}]
+    entries, raw = outcomes.collect(progs, lambda p: const_grid if p.get("constgrid") else big_grid if p.get("big") else (sub_grid if p.get("smallgrid") == 2 else small_grid if p.get("smallgrid") else grid))
     verdicts, tres, errors = outcomes.judge(entries, "c20")
     for r in tres:
         chk.add_tlc(r)
